@@ -79,6 +79,10 @@ func (c *Case) Spec(journal bool) harness.Spec {
 		sp.Replay = c.Schedule
 	}
 	if c.Prov != nil {
+		c.Prov.advLen = 0
+		if c.Policy.Kind != "fifo" && c.Policy.Kind != "" {
+			c.Prov.advLen = c.Policy.L
+		}
 		sp.Body = c.Prov.Body
 		return sp
 	}
@@ -202,12 +206,18 @@ var envSites = []string{"env:exec-start", "env:exec-end", "env:deploy", "env:dep
 
 // GenPolicy draws a scheduler strategy and its parameters (swarm style).
 func GenPolicy(t *rapid.T, adversarial bool) simrt.PolicySpec {
+	return GenPolicyFor(t, adversarial, "")
+}
+
+// GenPolicyFor is GenPolicy with the starvation victims drawn, most of the time, from the schedule
+// points of one source file (the code the case is about).
+func GenPolicyFor(t *rapid.T, adversarial bool, file string) simrt.PolicySpec {
 	sp := simrt.PolicySpec{Seed: rapid.Int64Range(1, 1<<40).Draw(t, "sched_seed")}
 	if !adversarial {
 		sp.Kind = "fifo"
 		return sp
 	}
-	sp.Kind = rapid.SampledFrom([]string{"fifo", "random", "starve", "pct", "bounded", "starve", "random"}).Draw(t, "strategy")
+	sp.Kind = rapid.SampledFrom([]string{"fifo", "random", "starve", "pct", "bounded", "starve", "random", "holdat", "holdat"}).Draw(t, "strategy")
 	sp.L = rapid.SampledFrom([]int64{400, 100, 1500, 6000}).Draw(t, "adv_len")
 	sp.PTime = rapid.SampledFrom([]int{0, 20, 100, 300, 600}).Draw(t, "ptime")
 	sp.PSelect = rapid.SampledFrom([]int{0, 100, 500}).Draw(t, "pselect")
@@ -217,14 +227,35 @@ func GenPolicy(t *rapid.T, adversarial bool) simrt.PolicySpec {
 		sp.Depth = rapid.IntRange(1, 3).Draw(t, "pct_depth")
 	case "bounded":
 		sp.Preemptions = rapid.IntRange(1, 3).Draw(t, "preemptions")
+	case "holdat":
+		n := rapid.SampledFrom([]int{1, 1, 1, 2}).Draw(t, "holds")
+		hi := rapid.SampledFrom([]int64{60, 150, 400, 1000}).Draw(t, "hold_range")
+		for i := 0; i < n; i++ {
+			sp.HoldAt = append(sp.HoldAt, rapid.Int64Range(1, hi).Draw(t, "hold_at"))
+		}
+		sort.Slice(sp.HoldAt, func(i, j int) bool { return sp.HoldAt[i] < sp.HoldAt[j] })
+		sp.WindowUS = rapid.SampledFrom([]int64{0, 0, 15000, 40000, 200000, 6000000}).Draw(t, "window_us")
+		sp.Shuffle = rapid.Bool().Draw(t, "shuffle")
+		if sp.PTime > 100 {
+			sp.PTime = 0
+		}
 	case "starve":
 		all := append(append([]string{}, Sites...), envSites...)
+		if file != "" && rapid.IntRange(0, 9).Draw(t, "victim_scope") < 7 {
+			all = nil
+			for _, s := range Sites {
+				if strings.HasPrefix(s, file) {
+					all = append(all, s)
+				}
+			}
+		}
 		if len(all) == 0 {
 			all = []string{"provider.go"}
 		}
 		sp.Victim = rapid.SampledFrom(all).Draw(t, "victim")
 		sp.WindowUS = rapid.SampledFrom([]int64{15000, 40000, 200000, 500000, 6000000}).Draw(t, "window_us")
 		sp.Each = rapid.Bool().Draw(t, "each")
+		sp.Shuffle = rapid.Bool().Draw(t, "shuffle")
 		if sp.PTime > 100 {
 			sp.PTime = 0
 		}
